@@ -125,6 +125,23 @@ def run_e2e(args):
                 shutil.rmtree(hroot, ignore_errors=True)
         except BaseException as e:  # noqa: BLE001
             rec["runs"].append({"T": 0, "kind": "payloads", "error": f"building: {type(e).__name__}: {str(e)[:150]}"})
+        # one iterator stays open (partly consumed) while the same process creates and finishes more than ten thousand others (every
+        # epoch of a repeating Rust stream is a new native iterator): per-iterator state is keyed, and no key may ever be handed out twice
+        if a.get("many") and len(py) >= 2:
+            import itertools as _it2
+            try:
+                troot = root + "_tiny"
+                tds, _tw = I.build_dataset(troot, "fb", a["comp"], 1, [{"sub": ".", "writes": [(0, 1)]}])
+                tds = Dataset(troot)
+                A = ds.as_numpy_iterator_rust(split="train", repeat=False, shuffle=0, file_parallelism=2)
+                gotA = [sp.ident(next(A)) for _ in range(min(3, len(py) - 1))]
+                n_ep = a["many"]
+                cnt = sum(1 for _ in _it2.islice(tds.as_numpy_iterator_rust(split="train", repeat=True, shuffle=0, file_parallelism=1), n_ep))
+                gotA += [sp.ident(e) for e in A]
+                rec["runs"].append({"T": 2, "kind": "many-iterators", "got": gotA, "want": py, "epochs": cnt})
+                shutil.rmtree(troot, ignore_errors=True)
+            except BaseException as e:  # noqa: BLE001
+                rec["runs"].append({"T": 2, "kind": "many-iterators", "got": [], "want": py, "epochs": a["many"], "error": f"{type(e).__name__}: {str(e)[:150]}"})
         # several Rust-backed passes alive at the same time with staggered life times: A and B open, A ends while B is
         # mid-pass, C opens, B and C are consumed alternately (train / validation passes interleaved in one process)
         if nsh >= 2:
@@ -334,7 +351,7 @@ def run(ctx):
         if i % 2:
             plan.append({"sub": "a", "writes": [(0, eps + 1)]})      # uneven shard sizes, nested lists
         cases.append({"root": str(ctx.scratch / f"c15_{i}"), "comp": comp, "eps": eps, "plan": plan, "threads": [1, 2, -0, -3] if ctx.thorough else [1, 2, -3],
-                      "drops": [0, 1, 3], "huge": comp in ("GZIP", "ZLIB"), "pseed": rng.randrange(1 << 30)})
+                      "drops": [0, 1, 3], "huge": comp in ("GZIP", "ZLIB"), "pseed": rng.randrange(1 << 30), "many": (ctx.pick(10300, 70000) if i == 1 else 0)})
     recs = child.call("harness.checks.c15", "run_e2e", cases, timeout=1800)
     nruns = 0
     for r in recs:
@@ -353,6 +370,11 @@ def run(ctx):
             if run_["kind"] == "layouts":
                 if not run_["same"]:
                     ctx.report(dict(sig, what="attribute-values"), f"the Rust reader and the Python reader disagree on attribute values (several attributes, explicit byte-order dtypes): {json.dumps(run_['first_diff'])[:300]}",
+                               {"case": r["case"], "run": run_})
+                continue
+            if run_["kind"] == "many-iterators":
+                if run_["got"] != run_["want"]:
+                    ctx.report(dict(sig, what="many-iterators"), f"a Rust iterator kept open while {run_['epochs']} other native iterators were created and finished in the same process yields {run_['got'][:12]} instead of {run_['want'][:12]}",
                                {"case": r["case"], "run": run_})
                 continue
             if run_["kind"] == "repeat-small":
@@ -383,7 +405,7 @@ def run(ctx):
         "traces_validated_against_impl": len(lines) - len(corr_bad),
         "rule": "parallel_map via a cargo integration test: n in {0,1,2,3,5,8,13} x threads in {1,2,3,4,9}, item-dependent delays (out-of-order completion), early drop after k in {0,1,2,n/2} "
                 "with thread count from /proc/self/task, a consumer stalling 2.6 s; the rebuilt extension: as_numpy_iterator_rust vs as_numpy_iterator for threads in {1,2,#shards,#shards+3}, every "
-                "supported compression, uneven shard sizes, nested lists, shuffled multiset, early close, payload kinds (all-zero / constant / incompressible 1 MiB arrays, a shard above 16 MiB); model outputs under pseudo-random schedules compared with both",
+                "supported compression, uneven shard sizes, nested lists, shuffled multiset, early close, payload kinds (all-zero / constant / incompressible 1 MiB arrays, a shard above 16 MiB), one iterator kept open across 10300 (70000) other iterators of the same process; model outputs under pseudo-random schedules compared with both",
         "samples": lines[:2] + [{"case": recs[0]["case"], "run": recs[0]["runs"][0]}],
         "input_distribution": {"cargo_cases": collections.Counter(l["kind"] for l in lines), "extension_runs": nruns, "cargo_rc": rc},
     })
